@@ -301,6 +301,10 @@ def run(ctx):
         "sync.RWMutex read sections are modelled as exclusive sections (currentNATType): overlapping readers are outside the theorem",
         "fields disciplined by goroutine confinement or channel hand-off are not in the table: only the -race runs observe them",
     ]
+    ctx.extra["rule"] = ("evaluations = rows of the access table extracted from the repo's working tree (each row is one access site "
+                         "checked by discipline_ok inside Coq) + runs of -race workloads (workload x seed); distinct = distinct rows / runs")
+    ctx.extra["explanation"] = ("lockset theorem over all traces (Coq) + static access table regenerated from the source and checked by "
+                                "vm_compute + Go race detector on in-package workloads; no executable-model correspondence for this property")
     table_leg(ctx)
     race_leg(ctx)
 
